@@ -54,6 +54,14 @@ func (pa *pkgAn) captureRows() (rows []*Row, notes []string) {
 					gos = append(gos, g)
 				}
 			}
+			// a literal handed to time.AfterFunc / context.AfterFunc runs on a goroutine of its own
+			if ce, ok := n.(*ast.CallExpr); ok {
+				if f := pa.timerSpawn(ce); f != nil {
+					if _, isLit := f.(*ast.FuncLit); isLit {
+						gos = append(gos, timerGo(ce, f))
+					}
+				}
+			}
 			return true
 		})
 		if len(gos) == 0 {
